@@ -151,7 +151,7 @@ CLAIMED["C02"] = {
             "inputs of both passes, and format(format(x)) is compared byte for byte with format(x) over random option sets (all widths "
             "classes, both modes, typography, cleanups, three list spacings) and plaintext mode.",
     "note": "Marko's re-reading of the canonical spelling and the Markdown-aware splitter are exercised, not proved. 7 genuine defects "
-            "found by the two-pass runs were repaired in /repo; D-25, D-27, D-42, D-50, D-51, D-52, D-83, D-96 are listed findings.",
+            "found by the two-pass runs were repaired in /repo; D-25, D-27, D-42, D-50, D-51, D-52, D-83, D-96, D-98 are listed findings.",
     "design": "DESIGN.md §5 C02",
 }
 CLAIMED["C03"] = {
@@ -191,7 +191,8 @@ CLAIMED["C10"] = {
             "when each item holds at most one block; choosing a mode twice is choosing it once). What the modes do to the "
             "tightness Marko reads back (loose: every list of two or more items loose; tight: lists of single-block items tight; preserve: "
             "as in the input) and cleanups on vs off on re-parsed trees are evaluated on the extracted model and the implementation.",
-    "note": "Findings D-42 and D-56 (tightness not preserved around headings / nested loose lists) are listed. Marko's reading of tight/loose "
+    "note": "Findings D-42 and D-56 (tightness not preserved around headings / nested loose lists) and D-98 (literal delimiter runs in an entirely "
+            "bold heading) are listed. Marko's reading of tight/loose "
             "is not modelled.",
     "design": "DESIGN.md §0.3 / §5 C10",
 }
